@@ -62,8 +62,8 @@ Theorem C07_failed_delegatecall_reverts : forall rec e w rd tr depth ro self pca
   failed (o_res o) = true -> o_world o = w.
 Proof. exact delegatecall_failed_reverts. Qed.
 Print Assumptions C07_failed_delegatecall_reverts.
-Theorem C07_failed_staticcall_reverts : forall rec e w rd tr depth caller addr input gas,
-  let o := do_staticcall rec e w rd tr depth caller addr input gas in
+Theorem C07_failed_staticcall_reverts : forall rec e w rd tr depth ro caller addr input gas,
+  let o := do_staticcall rec e w rd tr depth ro caller addr input gas in
   failed (o_res o) = true -> o_world o = w.
 Proof. exact staticcall_failed_reverts. Qed.
 Print Assumptions C07_failed_staticcall_reverts.
@@ -83,9 +83,9 @@ Print Assumptions C07_failed_create_reverts.
    are the same (same_obs; what may differ: an empty account may have come into existence through a
    value-less CALL, exactly as in the code).  Uses, from the regenerated tables: the state-changing
    instructions carry `writes`, and opCall is bound at 0xf1 only (InterpProofsStatic.call_pos_all). *)
-Theorem C07_static_is_readonly : forall fuel e w rd tr depth caller addr input gas,
+Theorem C07_static_is_readonly : forall fuel e w rd tr depth ro caller addr input gas,
   wf_env e -> e_byzantium e = true ->
-  let w' := o_world (do_staticcall (interp fuel e) e w rd tr depth caller addr input gas) in
+  let w' := o_world (do_staticcall (interp fuel e) e w rd tr depth ro caller addr input gas) in
   (forall a, get_balance w a = get_balance w' a /\ get_nonce w a = get_nonce w' a /\ get_code w a = get_code w' a /\
              forall k, get_state w a k = get_state w' a k) /\
   w_logs w = w_logs w'.
@@ -95,6 +95,20 @@ Theorem C07_readonly_frame_is_readonly : forall fuel e w fr,
   wf_env e -> e_byzantium e = true -> f_ro fr = true -> same_obs w (o_world (interp fuel e w fr)).
 Proof. exact readonly_frame_is_readonly. Qed.
 Print Assumptions C07_readonly_frame_is_readonly.
+
+(* interpreter.readOnly is mutable interpreter state in the code (StaticCall sets it when it is off and a
+   deferred function switches it off again exactly then); the model threads it the same way (o_ro / f_ro,
+   Interp.do_staticcall).  For every code and every call kind, at every depth: the flag a call hands back
+   is the flag it was entered with — a STATICCALL made inside an already static frame leaves the
+   protection on for the rest of that frame.  (C07_static_is_readonly rests on it.) *)
+Theorem C07_readonly_flag_discipline : forall fuel e w rd tr depth ro caller addr input code gas value self pcaller pvalue,
+  o_ro (do_call (interp fuel e) e w rd tr depth ro caller addr input gas value) = ro /\
+  o_ro (do_callcode (interp fuel e) e w rd tr depth ro caller addr input gas value) = ro /\
+  o_ro (do_delegatecall (interp fuel e) e w rd tr depth ro self pcaller pvalue addr input gas) = ro /\
+  o_ro (do_staticcall (interp fuel e) e w rd tr depth ro caller addr input gas) = ro /\
+  o_ro (do_create (interp fuel e) e w rd tr depth ro caller code gas value) = ro.
+Proof. exact flag_discipline. Qed.
+Print Assumptions C07_readonly_flag_discipline.
 
 (* the single-step form: a state-changing instruction met in a read-only frame ends the frame at once *)
 Theorem C07_static_write_rejected : forall rec e w fr, wf_env e -> e_byzantium e = true -> f_ro fr = true ->
